@@ -39,7 +39,13 @@ type Case struct {
 	Nest      int            `json:"nest,omitempty"` // MultiRowGroup: 0 flat, 1 Multi(Multi(head), tail...), 2 Multi(first, Multi(rest)), 3 Multi(Multi(a), Multi(b))
 }
 
-var kinds = []string{"rowgroup.Rows", "rowgroup.Rows", "Reader", "Pages", "Pages", "MultiRowGroup", "Buffer", "Column.Pages"}
+var kinds = []string{"rowgroup.Rows", "rowgroup.Rows", "Reader", "Pages", "Pages", "MultiRowGroup", "Buffer", "Column.Pages", "ConvertRowReader(forward-only)"}
+
+// readOnly hides every method of a row reader but ReadRows: ConvertRowReader
+// then provides forward seeks by reading and discarding rows.
+type readOnly struct{ r parquet.RowReader }
+
+func (o readOnly) ReadRows(rows []parquet.Row) (int, error) { return o.r.ReadRows(rows) }
 
 func genCase(t *rapid.T) Case {
 	var c Case
@@ -164,6 +170,7 @@ func runCase(c Case, o *kit.Obs) *kit.Failure {
 	var rr seekRows
 	var pages parquet.Pages
 	var firstRows []int64
+	forwardOnly := false
 	maxPages := 0
 	pageStarts := func(rg parquet.RowGroup, base int64) {
 		for ci, cc := range rg.ColumnChunks() {
@@ -239,6 +246,26 @@ func runCase(c Case, o *kit.Obs) *kit.Failure {
 			}
 			base += g.NumRows()
 		}
+	case "ConvertRowReader(forward-only)":
+		// the rows of the whole file behind a reader that cannot seek, converted to the same schema
+		conv, err := parquet.Convert(f.Schema(), f.Schema())
+		if err != nil {
+			return kit.Failf("c08/convert-error", "%v", err)
+		}
+		src := parquet.NewReader(f)
+		defer src.Close()
+		sk, ok := parquet.ConvertRowReader(readOnly{src}, conv).(seekRows)
+		if !ok {
+			o.Class("not-seekable")
+			return nil
+		}
+		rr = sk
+		forwardOnly = true
+		base := int64(0)
+		for _, g := range f.RowGroups() {
+			pageStarts(g, base)
+			base += g.NumRows()
+		}
 	default: // one row group: the last one (so its model slice does not start at 0 when there are several)
 		gs := f.RowGroups()
 		if len(gs) == 0 {
@@ -269,6 +296,9 @@ func runCase(c Case, o *kit.Obs) *kit.Failure {
 		switch op.K {
 		case "seek":
 			k := target(op, cursor, n, firstRows)
+			if forwardOnly && k < cursor {
+				k = cursor // backward seeks are refused by design: only forward ones are exercised
+			}
 			var err error
 			if pages != nil {
 				err = pages.SeekToRow(k)
